@@ -92,6 +92,8 @@ def judge(case, impl, model):
             if "ok" not in s2 or S.canon_doc(case["cls"], s2["ok"]) != S.canon_doc(case["cls"], impl["ser"]["ok"]):
                 fails.append((f"no-fixpoint:{site}", "serialize(deserialize(serialize(x))) != serialize(x) for a lossy field type: "
                               + json.dumps(impl["ser"]["ok"])[:200] + " vs " + json.dumps(s2)[:200]))
-    if impl.get("doc_aliases"):
+    if impl.get("doc_aliases") and (frag or S.lossy_only(case["cls"])):
+        # (outside the statement's fragment - e.g. an AnyOf of indistinguishable options, where the first option whose
+        #  shallow check passes serializes the value - aliasing of the returned document is C19's subject, not C05's)
         fails.append((f"live-document:{site}", "mutating the returned document changed the instance (C19)"))
     return msg, fails
